@@ -38,7 +38,20 @@ SimpleStringBuffer::SimpleStringBuffer() :
     positions_filled_(0), write_limit_(SIMPLE_STRING_BUFFER_LEN-1)
 {
     buffer_[0] = '\0';
+#ifdef CPPUTEST_VERIF_HOOKS
+    for (size_t i = 0; i < VERIF_CANARY_LEN; i++) verif_canary_[i] = (unsigned char) (0xA5 ^ i);
+#endif
 }
+
+#ifdef CPPUTEST_VERIF_HOOKS
+/* verification harnesses only: an overflow of buffer_ stays inside the detector object and is invisible to AddressSanitizer */
+bool SimpleStringBuffer::verifCanaryIntact() const
+{
+    for (size_t i = 0; i < VERIF_CANARY_LEN; i++)
+        if (verif_canary_[i] != (unsigned char) (0xA5 ^ i)) return false;
+    return true;
+}
+#endif
 
 void SimpleStringBuffer::clear()
 {
